@@ -128,6 +128,10 @@ func makeTxQueue(txs gtypes.Txs) [][]appTx {
 		tx := gtypes.Tx(txs[i])
 		l := tx.Size()
 		q[i] = make([]appTx, l)
+		for j := range q[i] {
+			// before any goroutine can Wait() on it
+			q[i][j].ready.Add(1)
+		}
 	}
 	return q
 }
@@ -151,7 +155,9 @@ func initTxQueue(txs gtypes.Txs, apptxQ [][]appTx, exit *int32) {
 func txQueue(tptx gtypes.Tx, apptxQ [][]appTx, i, j int) error {
 	cur := &apptxQ[i][j]
 	cur.rawbytes = tptx
-	cur.ready.Add(1)
+	if j == 0 {
+		cur.oribys = tptx
+	}
 
 	// decode bytes
 	if len(tptx) > 0 {
@@ -161,10 +167,8 @@ func txQueue(tptx gtypes.Tx, apptxQ [][]appTx, i, j int) error {
 		}
 	}
 
+	// publish the entry only after all of its fields are written
 	atomic.StoreInt32(&cur.status, appTxStatusInit)
-	if j == 0 {
-		apptxQ[i][j].oribys = tptx
-	}
 	j++
 	return nil
 }
@@ -221,8 +225,9 @@ func tryValidate(signer etypes.Signer, tx *appTx) error {
 
 	_, err := etypes.Sender(signer, tx.tx)
 	if err != nil {
-		atomic.StoreInt32(&tx.status, appTxStatusFailed)
+		// the error must be visible before the status is
 		tx.err = err
+		atomic.StoreInt32(&tx.status, appTxStatusFailed)
 		return err
 	}
 
